@@ -471,7 +471,7 @@ def plan_loops(b_holder):
 
     def inv_chunks(ctx):
         st = ctx.st
-        oc_ = ctx.entry.lookup('ordered_chunks').z
+        oc_ = _walked(ctx.entry, 'For#3').z
         return z3.And(ctx.k <= ctx.n, ctx.v('chunk_position') == psum(oc_, ctx.k))
 
     all_mod = [
@@ -486,7 +486,7 @@ def plan_loops(b_holder):
     def psum_axioms(ctx):
         st = ctx.st
         h = st.heap
-        oc_ = st.lookup('ordered_chunks').z
+        oc_ = _walked(st, 'For#3').z
         k = z3.Int('ps_k')
         LI = sym.ListC(INT)
         ent = lambda kk: ctx.elem(kk).z
@@ -503,6 +503,14 @@ def plan_loops(b_holder):
         'For#2': LoopSpec(inv_files, modifies=files_mod, name='For#2'),
         'For#3': l3,
     }
+
+
+def _walked(st, loop):
+    """the list the loop walks (recorded by the engine), whatever the code calls it"""
+    v = st.ghost.get('$iter_' + loop)
+    if isinstance(v, SV):
+        return v
+    return st.lookup('ordered_chunks')
 
 
 def plan_post(prop):
@@ -528,7 +536,7 @@ def plan_post(prop):
             h = st.heap
             rng = h.read(ENTRYREC, 'range', cd)
             r0, r1 = z3.Select(h.read(LI, 'arr', rng), 0), z3.Select(h.read(LI, 'arr', rng), 1)
-            oc_ = st.lookup('ordered_chunks').z
+            oc_ = _walked(st, 'For#3').z
             kk = [v for k_, v in st.ghost.items()]
             fpath = st.lookup('file_path').z
             res.oblige(p, f'{prop}.plan.ref_size_is_range_length', REF.proj(t, 1) == r1 - r0)
@@ -592,7 +600,7 @@ def plan_post(prop):
                 if p.kind in ('normal', 'continue'):
                     fs = st.lookup('files_sizes').z
                     dsz = sym.DictC(STR, INT)
-                    ocl = st.lookup('ordered_chunks').z
+                    ocl = _walked(st, 'For#3').z
                     nn = st.heap.read(sym.ListC(Ref(ENTRYREC)), 'len', ocl)
                     res.oblige(p, f'{prop}.plan.file_size_is_sum_of_refs', z3.And(
                         z3.Select(st.heap.read(dsz, 'has', fs), fpath),
